@@ -3,6 +3,7 @@ package rules
 import (
 	"fmt"
 	"go/ast"
+	"go/token"
 	"go/types"
 	"sort"
 	"strings"
@@ -26,7 +27,7 @@ var astDispatchByType = map[string]string{
 	"*ast.PropertyKeyed":     "only an element of ObjectLiteral.Value / ObjectPattern.Properties, compiled by the parent node",
 	"*ast.PropertyShort":     "only an element of ObjectLiteral.Value / ObjectPattern.Properties, compiled by the parent node",
 	"*ast.SpreadElement":     "only an element of ArrayLiteral.Value, CallExpression.ArgumentList or ObjectLiteral.Value (patterns keep a spread in .Rest), compiled by the parent node",
-	"*ast.PrivateIdentifier": "only the Identifier of a PrivateDotExpression or the left operand of `#x in o`, compiled by the parent node",
+	"*ast.PrivateIdentifier": "only the Identifier of a PrivateDotExpression, a class element key or the left operand of `#x in o`, compiled by the parent node - backed by the producer check below (privateIdentifierProducers), after the assertion alone turned out to be wrong",
 	"*ast.CaseStatement":     "only an element of SwitchStatement.Body, compiled by compileSwitchStatement",
 	"*ast.CatchStatement":    "only TryStatement.Catch, compiled by compileTryStatement",
 }
@@ -191,7 +192,154 @@ func runASTDispatch(p *core.Prog) *core.Result {
 	}
 	res.Count("type_switches_over_ast_interfaces", nSwitches)
 	res.Count("with_noreturn_default", nChecked)
+	privateIdentifierProducers(p, res)
 	return res
 }
 
 var _ = ssa.NewProgram
+
+// privateIdentifierProducers backs the table entry for *ast.PrivateIdentifier with a check instead
+// of an assertion: a parser function that hands a *ast.PrivateIdentifier back to its caller as a
+// general ast.Expression either reports a syntax error on that path, or every caller inspects the
+// result for that very type (and so decides where a private name is allowed). On the pinned tree
+// parseObjectProperty did not (`({#x: 1})`) and parseRelationalExpression returned a bare `#x`
+// that was not followed by `in` (`[#x]` inside a class): both reached compileExpression's default
+// arm - "Compiler bug: Unknown expression type" escaping to the host.
+func privateIdentifierProducers(p *core.Prog, res *core.Result) {
+	pi, err := p.LookupType(core.GojaPath+"/ast", "PrivateIdentifier")
+	if err != nil {
+		res.Fail(err)
+		return
+	}
+	piPtr := types.NewPointer(pi)
+	isPI := func(v ssa.Value) bool {
+		seen := map[ssa.Value]bool{}
+		var rec func(v ssa.Value) bool
+		rec = func(v ssa.Value) bool {
+			if seen[v] {
+				return false
+			}
+			seen[v] = true
+			switch x := v.(type) {
+			case *ssa.MakeInterface:
+				return types.Identical(x.X.Type(), piPtr)
+			case *ssa.Phi:
+				for _, e := range x.Edges {
+					if rec(e) {
+						return true
+					}
+				}
+			case *ssa.UnOp:
+				// functions with a defer return through a spilled result cell
+				if a, ok := x.X.(*ssa.Alloc); ok && x.Op == token.MUL {
+					for _, r := range core.Referrers(a) {
+						if st, ok := r.(*ssa.Store); ok && st.Addr == a && rec(st.Val) {
+							return true
+						}
+					}
+				}
+			}
+			return false
+		}
+		return rec(v)
+	}
+	isErrorCall := func(in ssa.Instruction) bool {
+		c, ok := in.(*ssa.Call)
+		if !ok {
+			return false
+		}
+		sc := c.Call.StaticCallee()
+		return sc != nil && sc.Pkg != nil && sc.Pkg.Pkg.Path() == core.GojaPath+"/parser" && strings.HasPrefix(sc.Name(), "error")
+	}
+	nProd := 0
+	for _, f := range p.Funcs {
+		if f.Pkg == nil || f.Pkg.Pkg.Path() != core.GojaPath+"/parser" || f.Parent() != nil {
+			continue
+		}
+		// result indexes that may carry a private identifier, with the returns doing so
+		carrying := map[int][]*ssa.Return{}
+		core.AllInstrs(f, func(in ssa.Instruction) {
+			r, ok := in.(*ssa.Return)
+			if !ok {
+				return
+			}
+			for i, v := range r.Results {
+				if isPI(v) {
+					carrying[i] = append(carrying[i], r)
+				}
+			}
+		})
+		for idx, rets := range carrying {
+			nProd++
+			reported := true
+			for _, r := range rets {
+				ok := false
+				core.AllInstrs(f, func(in ssa.Instruction) {
+					if isErrorCall(in) && core.InstrDominates(in, r) {
+						ok = true
+					}
+				})
+				if !ok {
+					reported = false
+				}
+			}
+			key := fmt.Sprintf("parser.%s:private name handed back as an expression", core.FuncName(f))
+			if reported {
+				res.OK(key, p.Pos(f.Pos()), "only together with a reported syntax error")
+				continue
+			}
+			// every caller inspects the result for *ast.PrivateIdentifier
+			nCallers, bad := 0, ""
+			for _, g := range p.Funcs {
+				for _, c := range core.CallsIn(g, f) {
+					nCallers++
+					call, ok := c.(*ssa.Call)
+					if !ok {
+						bad = p.Pos(c.Pos())
+						continue
+					}
+					var result ssa.Value = call
+					if f.Signature.Results().Len() > 1 {
+						result = nil
+						for _, r := range core.Referrers(call) {
+							if ex, ok := r.(*ssa.Extract); ok && ex.Index == idx {
+								result = ex
+							}
+						}
+					}
+					inspected := false
+					if result != nil {
+						seen := map[ssa.Value]bool{}
+						var scan func(v ssa.Value)
+						scan = func(v ssa.Value) {
+							if seen[v] {
+								return
+							}
+							seen[v] = true
+							for _, r := range core.Referrers(v) {
+								switch x := r.(type) {
+								case *ssa.TypeAssert:
+									if types.Identical(x.AssertedType, piPtr) {
+										inspected = true
+									}
+								case *ssa.Phi:
+									scan(x)
+								}
+							}
+						}
+						scan(result)
+					}
+					if !inspected {
+						bad = p.Pos(c.Pos())
+					}
+				}
+			}
+			if bad == "" && nCallers > 0 {
+				res.OK(key, p.Pos(f.Pos()), fmt.Sprintf("all %d callers test the result for *ast.PrivateIdentifier", nCallers))
+			} else {
+				res.Bad(key, bad, "a *ast.PrivateIdentifier leaves this parser function as a plain expression and the caller at "+bad+" does not look for it: it can end up in a slot the compiler dispatches generically (object literal key, array element), where compileExpression answers with the internal diagnostic 'Compiler bug: Unknown expression type'")
+			}
+		}
+	}
+	res.Count("parser functions returning a private name as an expression", nProd)
+}
